@@ -240,6 +240,7 @@ PROPS = {
                         "programs bounded to 4 fibers x 4 (quick) / 6 (thorough) operations"],
         "stages": [
             {"family": "lrcow", "flavour": "plain", "target": "C03", "cases": (400000, 6000000), "maxsec": (40, 400)},
+            {"family": "lrcow", "flavour": "plain", "target": "C03c", "cases": (3000, 60000), "maxsec": (40, 300)},
             {"family": "lrcow", "flavour": "plain", "target": "C20lr", "cases": (200000, 3000000), "maxsec": (25, 300)},
         ],
     },
